@@ -108,11 +108,13 @@ def run(facts, rep, tier, ctx):
         # what a listing hides must be exactly what was removed: remove_dir / remove_dir_all decide emptiness and enumerate
         # children through it, so a live child missing from the listing is orphaned by the next removal
         c09.listing_rules(facts, rep, ws, rule="R03.5l")
+        c09.relative_join_rules(facts, rep, ws, rule="R03.5j")
         if wa.present():
             A = c10._Prefixed(rep, "A")
             c09.table_u(facts, A, wa, rule="R03.5", only=("remove_dir", "create_dir", "create_file", "remove_file"))
             c10.marker_rules(facts, A, wa, prefix="R03.5m", only=("R10.1", "R10.3", "R10.5"))
             c09.listing_rules(facts, A, wa, rule="R03.5l")
+            c09.relative_join_rules(facts, A, wa, rule="R03.5j")
     except ImportError:
         rep.note("overlay rules (C09) not available yet")
     rep.assume("removal of the root itself is excluded by the property")
